@@ -1170,6 +1170,9 @@ func genCond(r *kit.Rng, palette []lval) string {
 	}
 	pv := palette[r.Intn(len(palette))]
 	vt := pv.condTok()
+	if pv.k == 'q' && pv.r.IsInt() && r.Chance(25) {
+		vt = "f:" + ratTok(pv.r) // the YAML value 5.0: a float64 condition value against integer fields
+	}
 	switch {
 	case field == string(config.NUM_DESCENDANTS):
 		vt = fmt.Sprintf("i:%d", 1+r.Intn(4))
